@@ -1402,7 +1402,15 @@ func marshalQueryValue(typ TypeInfo, value interface{}, dst *queryValues) error 
 	return nil
 }
 
+// maxReprepare is how often a statement is prepared again in a row because the server
+// answered UNPREPARED before the request fails with that error.
+const maxReprepare = 3
+
 func (c *Conn) executeQuery(ctx context.Context, qry *Query) *Iter {
+	return c.executeQueryAttempt(ctx, qry, 0)
+}
+
+func (c *Conn) executeQueryAttempt(ctx context.Context, qry *Query, reprepared int) *Iter {
 	params := queryParams{
 		consistency: qry.cons,
 	}
@@ -1557,7 +1565,10 @@ func (c *Conn) executeQuery(ctx context.Context, qry *Query) *Iter {
 	case *RequestErrUnprepared:
 		stmtCacheKey := c.session.stmtsLRU.keyFor(c.host.HostID(), c.currentKeyspace, qry.stmt)
 		c.session.stmtsLRU.evictPreparedID(stmtCacheKey, x.StatementId)
-		return c.executeQuery(ctx, qry)
+		if reprepared >= maxReprepare {
+			return &Iter{err: x, framer: framer}
+		}
+		return c.executeQueryAttempt(ctx, qry, reprepared+1)
 	case error:
 		return &Iter{err: x, framer: framer}
 	default:
@@ -1617,6 +1628,10 @@ func (c *Conn) UseKeyspace(keyspace string) error {
 }
 
 func (c *Conn) executeBatch(ctx context.Context, batch *Batch) *Iter {
+	return c.executeBatchAttempt(ctx, batch, 0)
+}
+
+func (c *Conn) executeBatchAttempt(ctx context.Context, batch *Batch, reprepared int) *Iter {
 	if c.version == protoVersion1 {
 		return &Iter{err: ErrUnsupported}
 	}
@@ -1708,7 +1723,10 @@ func (c *Conn) executeBatch(ctx context.Context, batch *Batch) *Iter {
 			key := c.session.stmtsLRU.keyFor(c.host.HostID(), c.currentKeyspace, stmt)
 			c.session.stmtsLRU.evictPreparedID(key, x.StatementId)
 		}
-		return c.executeBatch(ctx, batch)
+		if reprepared >= maxReprepare {
+			return &Iter{err: x, framer: framer}
+		}
+		return c.executeBatchAttempt(ctx, batch, reprepared+1)
 	case *resultRowsFrame:
 		iter := &Iter{
 			meta:    x.meta,
